@@ -40,10 +40,28 @@ func (a *obs) brief() string {
 
 func (r *run) observe(p *replica) *obs { return r.observeInst(p) }
 
+type toJSONer interface{ ToJSON() interface{} }
+
+// observeInst reads the instance through p.api. Inside a transaction body p.api is the
+// transaction's own view (reads through the outer object would wait for the transaction's lock).
 func (r *run) observeInst(p *replica) *obs {
 	o := &obs{}
 	msg, fp := safely(func() {
-		o.JSON = kernel.Canon(p.dt.ToJSON())
+		var src toJSONer = p.dt
+		switch {
+		case p.api.cnt != nil:
+			src, _ = p.api.cnt.(toJSONer)
+		case p.api.mp != nil:
+			src, _ = p.api.mp.(toJSONer)
+		case p.api.li != nil:
+			src, _ = p.api.li.(toJSONer)
+		case p.api.doc != nil:
+			src, _ = p.api.doc.(toJSONer)
+		}
+		if src == nil {
+			src = p.dt
+		}
+		o.JSON = kernel.Canon(src.ToJSON())
 		switch {
 		case p.api.cnt != nil:
 			o.Size = 0
@@ -51,7 +69,7 @@ func (r *run) observeInst(p *replica) *obs {
 		case p.api.mp != nil:
 			o.Size = p.api.mp.Size()
 			var keys []string
-			if m, ok := p.dt.ToJSON().(map[string]interface{}); ok {
+			if m, ok := src.ToJSON().(map[string]interface{}); ok {
 				keys = kernel.SortedKeys(m)
 			}
 			var sb strings.Builder
